@@ -25,6 +25,7 @@ const (
 	fRbRevision = "F-v3-rollback-marks-unapplied-revision"
 	fRbWakeup   = "F-v3-lost-wakeup-rollback"
 	fRbFailed   = "F-v3-rollback-behind-failed-change"
+	fRbPartial  = "F-v3-rollback-after-partial-apply"
 
 	fAlias   = "F-config-applied-aliases-committed" // C15
 	fLoopVar = "F-v3-config-store-loopvar-alias"    // C15
@@ -35,19 +36,20 @@ const (
 func switches() Switches {
 	return Switches{
 		FixNilCommitted:   vstat.IsListed(fNilMap),
-		DistinctPaths:     vstat.IsListed(fAlias),
+		DistinctPaths:     vstat.IsListed(fAlias) && AppliedAliasesCommitted(),
 		OnePath:           vstat.IsListed(fLoopVar),
 		NoTransient:       vstat.IsListed(fGrpcCode),
 		AbortOnConflict:   vstat.IsListed(fConflict),
 		RbSingleTrailing:  vstat.IsListed(fRbStuck),
 		RbOverAppliedOnly: vstat.IsListed(fRbRevision),
 		RbNotBehindFailed: vstat.IsListed(fRbFailed),
+		RbNotAfterPartial: vstat.IsListed(fRbPartial),
 	}
 }
 
 func noteExclusions(x *vstat.Ctx, sw Switches) {
 	for id, on := range map[string]bool{fNilMap: sw.FixNilCommitted, fAlias: sw.DistinctPaths, fLoopVar: sw.OnePath, fGrpcCode: sw.NoTransient,
-		fConflict: sw.AbortOnConflict, fRbStuck: sw.RbSingleTrailing, fRbRevision: sw.RbOverAppliedOnly, fRbFailed: sw.RbNotBehindFailed} {
+		fConflict: sw.AbortOnConflict, fRbStuck: sw.RbSingleTrailing, fRbRevision: sw.RbOverAppliedOnly, fRbFailed: sw.RbNotBehindFailed, fRbPartial: sw.RbNotAfterPartial} {
 		if on {
 			x.Excluded(id)
 		}
@@ -78,6 +80,13 @@ func rollbackCandidates(w *World, x *vstat.Ctx, sw Switches, facts *caseFacts) [
 				x.Class("rollback:excluded:" + fRbStuck)
 				continue
 			}
+		}
+		if sw.RbNotAfterPartial && cfg != nil && status(t, Change, Apply) == Pending && cfg.Applied.Target == configapi.Index(i) {
+			// F-v3-rollback-after-partial-apply: a crash has separated
+			// "Applied.Target := i" from "Change.Apply := IN_PROGRESS" and the
+			// change has not been reconciled since
+			x.Class("rollback:excluded:" + fRbPartial)
+			continue
 		}
 		if sw.RbNotBehindFailed {
 			// F-v3-rollback-behind-failed-change: the rollback of change i cannot
@@ -211,9 +220,6 @@ func (r *run) finish(err error) error {
 	w := r.w
 	if err == nil {
 		err = w.Obs.Viol
-	}
-	for id, what := range w.Obs.Hits {
-		r.x.Known(id, what)
 	}
 	if errors.Is(err, ErrBudget) {
 		return vstat.Violf("did not terminate: %d reconcile steps were not enough to reach quiescence; state %s; history %s", w.S.Steps, w.DescribeState(), w.Obs.HistoryString())
@@ -404,6 +410,11 @@ func runC20(c C20Case, x *vstat.Ctx) error {
 			// committed changes are rolled back, which nobody has asked for;
 			// everything behind it in the log legitimately waits with it
 			x.Class("end:rollback-waits-for-later-changes")
+			break
+		}
+		if t.Status.Phase == configapi.TransactionStatus_ROLLBACK && status(t, Change, Apply) == Pending && cfg.Applied.Target == configapi.Index(i) &&
+			status(t, Rollback, Commit) == Complete && vstat.IsKnown(prop, fRbPartial) {
+			x.Known(fRbPartial, fmt.Sprintf("the rollback of change %d is never applied: Applied.Target already names the change but its apply status is still PENDING (the status write was lost in a crash), a combination applyRollback has no branch for", i))
 			break
 		}
 		if blockedBehindFailedChange(w, cfg, i, t) && vstat.IsKnown(prop, fRbFailed) {
